@@ -58,7 +58,8 @@ func Diff(a, b *Obs, filter func(k string) bool) string {
 		if !ok {
 			out = append(out, fmt.Sprintf("%s: %s vs <absent>", k, clip(a.KV[k])))
 		} else if bv != a.KV[k] {
-			out = append(out, fmt.Sprintf("%s: %s vs %s", k, clip(a.KV[k]), clip(bv)))
+			x, y := clipPair(a.KV[k], bv)
+			out = append(out, fmt.Sprintf("%s: %s vs %s", k, x, y))
 		}
 		if len(out) >= 4 {
 			break
@@ -76,6 +77,36 @@ func Diff(a, b *Obs, filter func(k string) bool) string {
 		}
 	}
 	return strings.Join(out, " | ")
+}
+
+// clipPair shortens two differing values around the first position where they differ.
+func clipPair(a, b string) (string, string) {
+	if len(a) <= 160 && len(b) <= 160 {
+		return a, b
+	}
+	i := 0
+	for i < len(a) && i < len(b) && a[i] == b[i] {
+		i++
+	}
+	from := i - 70
+	if from < 0 {
+		from = 0
+	}
+	cut := func(s string) string {
+		pre := ""
+		if from > 0 {
+			pre = s[:min(24, from)] + "..."
+		}
+		if from >= len(s) {
+			return pre
+		}
+		s = s[from:]
+		if len(s) > 170 {
+			s = s[:170] + "..."
+		}
+		return pre + s
+	}
+	return cut(a), cut(b)
 }
 
 func clip(s string) string {
